@@ -551,6 +551,7 @@ int liberasurecode_decode(int desc,
     char **parity = NULL;
     char **data_segments = NULL;
     char **parity_segments = NULL;
+    char **valid_fragments = NULL;
     int *missing_idxs = NULL;
 
     uint64_t realloc_bm = 0;
@@ -606,6 +607,33 @@ int liberasurecode_decode(int desc,
         }
     }
 
+    /*
+     * If metadata checks requested, check fragment integrity upfront and
+     * keep only the fragments that pass: an invalid fragment must not
+     * contribute to the result (neither via the fast path nor the decode).
+     */
+    if (force_metadata_checks) {
+        int num_valid_fragments = 0;
+        valid_fragments = alloc_zeroed_buffer(sizeof(char*) * num_fragments);
+        if (NULL == valid_fragments) {
+            log_error("Could not allocate valid fragments buffer!");
+            ret = -ENOMEM;
+            goto out;
+        }
+        for (i = 0; i < num_fragments; ++i) {
+            if (!is_invalid_fragment(desc, available_fragments[i])) {
+                valid_fragments[num_valid_fragments++] = available_fragments[i];
+            }
+        }
+        if (num_valid_fragments < k) {
+            ret = -EINSUFFFRAGS;
+            log_error("Not enough valid fragments available for decode!");
+            goto out;
+        }
+        available_fragments = valid_fragments;
+        num_fragments = num_valid_fragments;
+    }
+
     if (instance->common.id != EC_BACKEND_SHSS && instance->common.id != EC_BACKEND_LIBPHAZR) {
         /* shss (ntt_backend) & libphazr backend must force to decode */
         // TODO: Add a frag and function to handle whether the backend want to decode or not.
@@ -641,21 +669,6 @@ int liberasurecode_decode(int desc,
     if (NULL == missing_idxs) {
         log_error("Could not allocate missing_idxs buffer!");
         goto out;
-    }
-
-    /* If metadata checks requested, check fragment integrity upfront */
-    if (force_metadata_checks) {
-        int num_invalid_fragments = 0;
-        for (i = 0; i < num_fragments; ++i) {
-            if (is_invalid_fragment(desc, available_fragments[i])) {
-                ++num_invalid_fragments;
-            }
-        }
-        if ((num_fragments - num_invalid_fragments) < k) {
-            ret = -EINSUFFFRAGS;
-            log_error("Not enough valid fragments available for decode!");
-            goto out;
-        }
     }
 
     /*
@@ -748,6 +761,7 @@ out:
     free(missing_idxs);
     free(data_segments);
     free(parity_segments);
+    free(valid_fragments);
 
     return ret;
 }
